@@ -70,7 +70,7 @@ func c04Recover(c *core.Ctx, r *core.Reporter) {
 	var worker *ssa.Function
 	core.Instrs(ep, func(in ssa.Instruction) {
 		if g, ok := in.(*ssa.Go); ok {
-			worker = core.ClosureFn(g.Call.Value)
+			worker = core.GoTarget(g)
 		}
 	})
 	if worker == nil {
